@@ -104,6 +104,8 @@ pub enum UskOp {
     SignatureFrom { other_user: usize },
     FlipBit { pos: usize, bit: u8 },
     Truncate { len: usize },
+    /// Split the chain of right i after its k-th secret into two rights with the same name.
+    SplitChain { i: usize, k: usize },
     /// Move the last `k` bytes of right i's name to the front of ... (shift name/secret border)
     ShiftNameBorder { i: usize, k: usize },
 }
